@@ -187,7 +187,7 @@ def supports(iface: str, fmt: str, comp: str) -> bool:
 
 
 def run_iface(ds, iface: str, split: str, *, shuffle: int, T: int, repeat: bool = False, take: int | None = None,
-              process: bool = False, **sel):
+              process: bool = False, batch: int = 0, **sel):
     """Iterate and return (ids, process_record call count or None)."""
     calls = {"n": 0}
     def proc(e):
@@ -220,6 +220,15 @@ def run_iface(ds, iface: str, split: str, *, shuffle: int, T: int, repeat: bool 
         return asyncio.run(main()), calls["n"] if process else None
     if iface == "tf":
         tfpr = (lambda e: {"a": e["a"] + 100000}) if process else None
-        tfds = ds.as_tfdataset(process_record=tfpr, batch_size=0, file_parallelism=T, parallelism=2, prefetch=1, **kw)
+        tfds = ds.as_tfdataset(process_record=tfpr, batch_size=batch, file_parallelism=T, parallelism=2, prefetch=1, **kw)
+        if batch > 0:
+            # batched: flatten the batches back into the stream of examples
+            out = []
+            for e in tfds.as_numpy_iterator():
+                for row in sp.np.asarray(e["a"]):
+                    out.append(int(float(sp.np.asarray(row).reshape(-1)[0])) - off)
+                    if take is not None and len(out) >= take:
+                        return out, None
+            return out, None
         return cut(tfds.as_numpy_iterator()), None
     raise ValueError(iface)
